@@ -218,6 +218,12 @@ def search(ctx, budget):
         ctx.evaluations += 1; ctx.count('keyword_text_' + r[0])
         if r[0] == 'bad':
             ctx.failures.append(({'stage': 'keyword-text', 'root': root, 'text': text, 'unparsed': r[3]}, r[1]))
+    from props import C06
+    pj = [(ctx.rng.choice(stages.URIS), ctx.rng.choice(stages.PREFIXES), t) for t in C06.para_strings(ctx.rng, ctx.n(150, 4000) * budget)]
+    for j, r in zip(pj, impl.pmap(C06._para, pj, chunk=16)):
+        ctx.evaluations += 1; ctx.count('paragraph_theorem_' + r[0])
+        if r[0] == 'bad':
+            ctx.failures.append(({'stage': 'paragraph', 'uri': j[0], 'prefix': j[1], 'string': j[2], 'unparsed': r[2]}, r[1]))
     d = make(*js[0])
     ctx.sample({'seed': js[0][0], 'root': js[0][1], 'text': (d[0] if d else '')[:600]})
 
@@ -239,6 +245,8 @@ def replay(obj):
     if case.get('stage') in ('witness', 'keyword-text'):
         r = _wjob((case['root'], case['text'])); print(r[:2]); return 1 if r[0] == 'bad' else 0
     from props import C06
+    if case.get('stage') == 'paragraph':
+        r = C06._para((case['uri'], case['prefix'], case['string'])); print(r[:2]); return 1 if r[0] == 'bad' else 0
     return 0 if C06.replay_xslstr(case) else 1
 
 LEVEL_TEXT = ('Partial. Proved on the tables regenerated from akn_text.xsl, akn.peg and types.py: every element the hierarchical template of the stylesheet '
@@ -246,7 +254,7 @@ LEVEL_TEXT = ('Partial. Proved on the tables regenerated from akn_text.xsl, akn.
               'or speech keyword of the grammar gives an element that template matches (C05_unparsed_keyword_parses_back, C05_keywords_have_templates); the Gallina model of the unparser has a branch for '
               'exactly the elements the stylesheet has templates for (C05_templates_are_modelled), and over that model: trees equal up to their eId attributes '
               'unparse to the same text in every context, so the unparsed text does not depend on eIds (C05_unparse_up_to_eids, C05_unparse_ignores_eids). '
-              'The round trip itself is not a theorem: it is decided by the oracle on the implementation: identity of parse(unparse(x)) with eIds, '
+              'The round trip is a theorem for one element kind, through the whole pipeline model: for every known FRBR URI, every eId prefix and every text s without tab or line break, without blanks at its ends and of XML-legal characters - whatever it spells - convert(unparse(<p eId=prefix__p_1>s</p>)) is that very element, eId included (C05_paragraph_round_trip; instances run on the implementation on every run). For all other elements the round trip is not a theorem: it is decided by the oracle on the implementation: identity of parse(unparse(x)) with eIds, '
               'a no-op second round trip, and fragment round trips for every element kind, on sampled documents of the C04 specification generator x seven '
               'roots; the stylesheet is modelled in full (Model/Unparse.v, Model/UnparseDoc.v) and tied to libxslt by the xslstr and unp stages. Documents from forgiving-mode input are not '
               'claimed (listed findings).')
